@@ -113,7 +113,34 @@ def gen_cfg(rng, with_error=False, max_nt=5, allow_conflicts=True):
         for (b, k) in seen:
             a = rng.choice([None, "N", "N", "N", "NC", "T"])
             prods.append((nt, b, k, a))
-    return CFG(nts, terms, prods)
+    g = CFG(nts, terms, prods)
+    if rng.random() < 0.45:
+        g = add_optionals(g, rng)
+    return g
+
+
+def add_optionals(g, rng):
+    """adds nullable helper nonterminals  Oi : t | empty  and inserts them AFTER nonterminals inside bodies (non-empty nullable
+    remainders: the look-aheads of the closure then depend on the inherited look-ahead)"""
+    nopt = rng.choice([1, 1, 2])
+    nts = list(g.nts)
+    prods = []
+    opts = []
+    for i in range(nopt):
+        name = "O%d" % i
+        opts.append(name)
+    for (l, b, k, a) in g.prods:
+        nb = []
+        for s_ in b:
+            nb.append(s_)
+            if s_ in g.nts and rng.random() < 0.5:
+                nb.append(rng.choice(opts))
+        prods.append((l, nb, k, a))
+    for name in opts:
+        nts.append(name)
+        prods.append((name, [rng.choice(g.terms)], "normal", rng.choice([None, "N"])))
+        prods.append((name, [], "empty", None))
+    return CFG(nts, list(g.terms), prods)
 
 
 FAMILIES = [
@@ -159,6 +186,10 @@ FAMILIES = [
     (["S", "Ss", "St"], ["a", "let", '";"'],
      [("S", ["Ss"], "normal", None), ("Ss", ["St"], "normal", "N"), ("Ss", ["Ss", "St"], "normal", "N"),
       ("St", ["a", '";"'], "normal", "N"), ("St", ["let", "error", '";"'], "normal", "N"), ("St", ['";"'], "error", "N")]),
+    # 11: nullable non-empty remainder after a nonterminal, item present with several look-aheads
+    (["S", "L", "E", "B", "O"], ['","', "b", '"?"'],
+     [("S", ["L"], "normal", None), ("L", ["L", '","', "E"], "normal", "N"), ("L", ["E"], "normal", "N"),
+      ("E", ["B", "O"], "normal", "N"), ("B", ["b"], "normal", "N"), ("O", ['"?"'], "normal", "N"), ("O", [], "empty", None)]),
 ]
 
 
